@@ -3,7 +3,7 @@ import random
 import re
 
 from vflib import core, build
-from gen.trees import TreeGen
+from gen.trees import TreeGen, random_path
 from oracle import refjson
 
 PID = "C02"
@@ -48,8 +48,15 @@ def shard_fn(shard, nshards, seed, tier, exe, ntrees, ndoubles):
     for i in range(ntrees // nshards):
         toks, value = tg.tree()
         cid = "%d.%d" % (shard, i)
-        cases.append((cid, ["B 0 " + " ".join(toks), "S64 0", "PUT 0"]))
-        meta[cid] = ("tree", toks, value)
+        extra = []
+        if rng.random() < 0.12:
+            # a node that had a custom serializer for a while and was reset to the default one must serialize like any other node
+            path, t = random_path(rng, toks)
+            if t[0] not in "nD":
+                extra = ["NAV 0 5 " + " ".join(path), "SS 5 0 1", "SS 5 0 0"]
+                sh.count("trees.node_with_serializer_reset.%s" % {"[": "array", "{": "object", "i": "int", "u": "int", "d": "double", "s": "string", "t": "boolean", "f": "boolean"}.get(t[0], t[0]))
+        cases.append((cid, ["B 0 " + " ".join(toks)] + extra + ["S64 0", "PUT 0"]))
+        meta[cid] = ("tree", toks, value, 1 + len(extra))
     # many single doubles under PLAIN and NOZERO (the trimming logic is shape dependent)
     per = ndoubles // nshards
     tg2 = TreeGen(rng, retained=False)
@@ -62,14 +69,14 @@ def shard_fn(shard, nshards, seed, tier, exe, ntrees, ndoubles):
         toks.append("]")
         cid = "%d.d%d" % (shard, j)
         cases.append((cid, ["B 0 " + " ".join(toks), "S 0 0", "S 0 4", "S 0 20", "PUT 0"]))
-        meta[cid] = ("doubles", toks, vals)
+        meta[cid] = ("doubles", toks, vals, 1)
     results, crashes = core.run_script(exe, cases, tag="c02")
     cmdmap = dict(cases)
     for cr in crashes:
         kind, frame = cr.summary()
         sh.violation("C02/crash/%s/%s" % (kind, frame), "driver died while serializing (%s)" % kind, {"driver": "jcdrv", "variant": "asan", "script": cmdmap[cr.cid], "stderr": cr.stderr[-3000:]})
     for cid, lines in results.items():
-        kind, toks, value = meta[cid]
+        kind, toks, value, si = meta[cid]
         expd = refjson.dump(value)
         rep = {"driver": "jcdrv", "variant": "asan", "script": cmdmap[cid]}
         if lines[0] != "= ok":
@@ -104,7 +111,7 @@ def shard_fn(shard, nshards, seed, tier, exe, ntrees, ndoubles):
                     sh.count("double_text_shape." + classify_double_text(tk))
             sh.nontrivial(" ".join(toks))
             continue
-        ln = lines[1]
+        ln = lines[si]
         head, _, tail = ln.partition(" | ")
         texts = [bytes.fromhex(x.split(":", 1)[1]) for x in head.split()[1:]]
         verdict = {}
